@@ -230,6 +230,19 @@ def render_e2(sname, fname, tp):
             "function main() -> void { echo(helper() * 100 + mk()); Caller c = new Caller(); echo(c.run()); echo(Caller.srun()); Box<U> b = new Box<U>(); echo(b.go()); }\n" % (sname, fname, tp, tp))
 
 
+E3_WRAPS = ["c ? int {L} = 1; : echo(\"else\");", "c ? echo(\"then\"); : int {L} = 1;", "if (c) {{ int {L} = 1; }}", "if (c) {{ }} else {{ int {L} = 1; }}",
+            "{{ int {L} = 1; }}", "for (int {L} = 0; {L} < 1; {L} = {L} + 1) {{ }}", "while (c) {{ int {L} = 1; c = 0b; }}",
+            "c ? {{ int {L} = 1; echo({L}); }} : {{ int {L} = 2; echo({L}); }}"]
+
+
+def render_e3(wrap, lname):
+    """hunt C09/d6: a local declared in a nested statement (a '? :' branch above all) ends with it, whatever it is called - the field read
+    after the statement is the field on every call"""
+    return ("class C { public int x = 10; public constructor() -> C = default; public function m(bit c) -> void { %s echo(x); } }\n"
+            "function other(int p) -> int { return p; }\n"
+            "function main() -> void { int cl = 5; C o = new C(); o.m(1b); o.m(0b); o.m(1b); echo(other(cl)); }\n" % wrap.format(L=lname))
+
+
 def e_items(tier):
     items = []
     for k in ((3, 4) if tier != "thorough" else (3, 4, 5)):
@@ -240,6 +253,8 @@ def e_items(tier):
             items.append((("E1", k), variants[i:i + 200]))
     combos = [(sn, fn, tp) for sn in ("Cfg", "T", "U", "plainS") for fn in ("Cfg", "T", "U", "plainF") for tp in ("T", "U", "W") if sn != fn]
     items.append((("E2",), combos))
+    for i, w in enumerate(E3_WRAPS):
+        items.append((("E3", i), [(w, ln) for ln in ("x", "cl", "p", "o", "c2", "m")]))
     return items
 
 
@@ -248,6 +263,8 @@ def _one_e(item):
     out, n = [], 1
     if tag[0] == "E1":
         ref_src = render_e1(["u%d" % i for i in range(tag[1])])
+    elif tag[0] == "E3":
+        ref_src = render_e3(E3_WRAPS[tag[1]], "u0")
     else:
         ref_src = render_e2("plainS", "plainF", "W")
     r0 = vdrv.run_src(ref_src, gc="own", warn=0)
@@ -255,7 +272,7 @@ def _one_e(item):
         return tag, [("reference", ref_src, "the uniquely named variant did not run: %s %s" % (r0.status(), (r0.rec or {}).get("msg", r0["fd2"][:200])))], 1, None
     want = (r0.rec["status"], r0.rec["stdout"])
     for v in variants:
-        src = render_e1(list(v)) if tag[0] == "E1" else render_e2(*v)
+        src = render_e1(list(v)) if tag[0] == "E1" else render_e3(*v) if tag[0] == "E3" else render_e2(*v)
         r = vdrv.run_src(src, gc="own", warn=0)
         n += 1
         if r.crash:
@@ -268,7 +285,7 @@ def _one_e(item):
 
 
 def _one(item):
-    if item[0][0] in ("E1", "E2"):
+    if item[0][0] in ("E1", "E2", "E3"):
         return _one_e(item)
     if item[0][0] == "D":
         return _one_d((item[0][1:], item[1]))
